@@ -78,7 +78,16 @@ def place_loops(rng, song, mode):
     song["loopmode"] = mode
 
 def play_history(rng, song, kind="plain"):
-    """kind: plain (loop off, exact or stepped) | loop | gating"""
+    """kind: plain (loop off, exact or stepped) | loop | gating | audio"""
+    if kind == "audio":
+        rate = rng.choice([44100, 44100, 22050, 48000, 8000])
+        h = [{"e": "Init", "rate": rate, "chips": 1}, song, {"e": "SetHooks"}]
+        if rng.random() < 0.3:
+            m = rng.choice([(1, 2), (2, 1)]); h.append({"e": "SetTempo", "num": m[0], "den": m[1]})
+        h.append({"e": "Load"})
+        req = rng.choice([[2], [100], [1024], [1026], [70000], [2, 100, 1024, 1026, 70000], [4096], [6, 1022, 300]])
+        h.append({"e": "PlayAudio", "req": req, "max": 2000000})
+        return h
     h = [{"e": "Init", "rate": 44100, "chips": 2}, song]
     hooks_when = rng.choice(["before", "after", "both", "reload"])
     if kind == "loop":
